@@ -127,7 +127,11 @@ type provider struct{ o *objRT }
 
 func (p *provider) JetStream() (leader.JetStreamContext, error) { return p, nil }
 func (p *provider) KeyValue(bucket string) (leader.KeyValue, error) {
-	return &link{s: p.o.s, o: p.o}, nil
+	l := &link{s: p.o.s, o: p.o}
+	if p.o.s.plan.PlainDelete {
+		return l, nil
+	}
+	return linkRD{l}, nil
 }
 
 type connProvider struct{ provider }
